@@ -17,7 +17,7 @@ from vlib import SPEC, OUT
 
 PID = "C09"
 FAMS = ["pow", "powT", "koch", "sqp", "sqn", "ip", "big"]
-GROUPS = {"power": ["pow", "powT", "koch"], "roots": ["sqp", "sqn"], "interp": ["ip", "big"]}     # one TLC run (one JVM) per group
+GROUPS = {"power": ["pow", "powT", "koch"], "rest": ["sqp", "sqn", "ip", "big"]}     # one TLC run (one JVM) per group
 GROUP_OF = {f: g for g, fs in GROUPS.items() for f in fs}
 SECTIONS = ["gen,conv,big", "rpow,rsq,rip"]                                                 # one recorded trace + one TLC run each
 # several JVMs run side by side on a shared machine: keep their helper threads few
@@ -291,7 +291,7 @@ def group_A(exe, group, tier, info, only=None):
     """one TLC run enumerates the families of the group; every family's cases then go through the driver"""
     cfg = "GEN_Arith_%s_%s.cfg" % (group, "q" if tier == "quick" else "t")
     t0 = time.time()
-    r = vlib.tlc("ArithGen", cfg, workers={"power": 5, "roots": 3, "interp": 4}[group] if tier == "quick" else 6, timeout=1200 if tier == "quick" else 3000, xmx="6g", env=JENV)
+    r = vlib.tlc("ArithGen", cfg, workers={"power": 5, "rest": 7}[group] if tier == "quick" else 8, timeout=1200 if tier == "quick" else 3000, xmx="6g", env=JENV)
     if r.error:
         raise vlib.Infra("TLC %s: %s" % (cfg, r.error))
     vlib.log("TLC %s: %d states, %.0fs" % (cfg, r.distinct, r.wall))
